@@ -258,3 +258,93 @@ class C10Merge2D(Harness):
             yield "original_unchanged", z3.And([z3.BoolVal(aft["shape"] == shape)] + [cx.eq(getcell(aft["freq"], i), f[i]) for i in idxs] + [cx.eq(getcell(aft["err2"], i), q[i]) for i in idxs]) if aft["shape"] == shape else False
         else:
             yield "inplace_returns_self", obs["same_object"] is True
+
+
+@register
+class C10MinFreq2D(Harness):
+    prop = "C10"
+    group = "minfreq2d"
+    bounds_doc = "2D histograms 3x2 / 2x3 / 3x3 merged along one axis with a symbolic min_frequency threshold (also on an adaptive fixed-width axis, amount=2): every new bin on that axis is a union of adjacent old bins, outer edges kept, cells are the sums of the old cells inside, the other axis, total and missed untouched"
+
+    def instances(self, tier):
+        for shape in ([(3, 2), (2, 3)] if tier == "quick" else [(3, 2), (2, 3), (3, 3)]):
+            for axis in (0, 1):
+                yield f"mf2d-S{shape[0]}x{shape[1]}-ax{axis}", dict(shape=list(shape), axis=axis, mode="minfreq")
+        yield "mf2d-adaptive-amount2", dict(shape=[2, 2], axis=0, mode="adaptive")
+        yield "m1d-adaptive-amount2", dict(shape=[4], axis=0, mode="adaptive1d")
+
+    def declare(self, cx, p):
+        shape = p["shape"]
+        x = {"f": declare_cells(cx, "f", shape), "m": cx.real("m")}
+        if p["mode"] == "minfreq":
+            x["e"] = [declare_edges(cx, f"e{k}_", shape[k]) for k in range(2)]
+            x["t"] = cx.pyfloat("t")
+            if cx.sym:
+                cx.assume(x["t"] > 0)
+        if cx.sym:
+            cx.assume(x["m"] >= 0)
+        return x
+
+    def drive(self, E, p, x):
+        np = E.np
+        shape = p["shape"]
+        if p["mode"] == "adaptive1d":
+            H1 = E.mod("physt.histogram1d").Histogram1D
+            FWB = E.mod("physt.binnings").FixedWidthBinning
+            h = H1(FWB(bin_width=1.0, bin_count=4, bin_times_min=0, adaptive=True), np.asarray(x["f"], dtype=float))
+            r = E.attempt(h.merge_bins, 2)
+            return {"raised_op": r} if isinstance(r, Raised) else {"res": snap1d(E, r), "after": snap1d(E, h), "one_d": True}
+        H2 = E.mod("physt.histogram_nd").Histogram2D
+        if p["mode"] == "adaptive":
+            FWB = E.mod("physt.binnings").FixedWidthBinning
+            bins = [FWB(bin_width=1.0, bin_count=2, bin_times_min=0, adaptive=True), np.asarray([0.0, 1.0, 2.0])]
+            h = H2(bins, np.asarray(nested(x["f"], shape), dtype=float), missed=x["m"])
+            r = E.attempt(h.merge_bins, 2, axis=0)
+        else:
+            h = H2([np.asarray(x["e"][k]) for k in range(2)], np.asarray(nested(x["f"], shape), dtype=float), missed=x["m"])
+            r = E.attempt(h.merge_bins, min_frequency=x["t"], axis=p["axis"])
+        if isinstance(r, Raised):
+            return {"raised_op": r}
+        return {"res": snapnd(E, r), "after": snapnd(E, h)}
+
+    def oracle(self, cx, p, x, obs):
+        yield "no_exception", obs.get("raised") is None and obs.get("raised_op") is None
+        if obs.get("raised") is not None or obs.get("raised_op") is not None:
+            return
+        shape = p["shape"]
+        res = obs["res"]
+        if obs.get("one_d"):
+            f = [cx.t(v) for v in x["f"]]
+            yield "merged_pairs", z3.And([z3.BoolVal(len(res["freq"]) == 2)] + ([cx.eq(res["freq"][0], f[0] + f[1]), cx.eq(res["freq"][1], f[2] + f[3]),
+                                          cx.t(res["bins"][0][0]) == 0, cx.t(res["bins"][0][1]) == 2, cx.t(res["bins"][1][1]) == 4] if len(res["freq"]) == 2 else []))
+            yield "original_unchanged", z3.And([z3.BoolVal(len(obs["after"]["freq"]) == 4)] + [cx.eq(a, b) for a, b in zip(obs["after"]["freq"], f)])
+            return
+        idxs = product_indices(shape)
+        f = {idx: cx.t(v) for idx, v in zip(idxs, x["f"])}
+        ax = p["axis"]
+        other = 1 - ax
+        if p["mode"] == "adaptive":
+            e = [[z3.RealVal(0), z3.RealVal(1), z3.RealVal(2)], [z3.RealVal(0), z3.RealVal(1), z3.RealVal(2)]]
+        else:
+            e = [[cx.t(t) for t in x["e"][k]] for k in range(2)]
+        rb = res["bins"]
+        n_new = len(rb[ax])
+        yield "other_axis_untouched", z3.And([z3.BoolVal(len(rb[other]) == shape[other])] + [z3.And(cx.t(rb[other][j][0]) == e[other][j], cx.t(rb[other][j][1]) == e[other][j + 1]) for j in range(min(len(rb[other]), shape[other]))])
+        fshape = [len(res["freq"]), len(res["freq"][0]) if res["freq"] else 0]
+        yield "contents_match_bins", fshape[ax] == n_new and fshape[other] == shape[other]
+        if fshape[ax] != n_new or fshape[other] != shape[other] or n_new == 0:
+            return
+        nl = [cx.t(b[0]) for b in rb[ax]]
+        nr = [cx.t(b[1]) for b in rb[ax]]
+        yield "outer_edges", z3.And(nl[0] == e[ax][0], nr[-1] == e[ax][shape[ax]])
+        yield "contiguous_unions_of_old_bins", z3.And([z3.Or([nl[k] == e[ax][j] for j in range(shape[ax])]) for k in range(n_new)] + [z3.Or([nr[k] == e[ax][j + 1] for j in range(shape[ax])]) for k in range(n_new)]
+                                                    + [nl[k] < nr[k] for k in range(n_new)] + [nl[k] == nr[k - 1] for k in range(1, n_new)])
+        for k in range(n_new):
+            for o in range(shape[other]):
+                inside = [z3.And(e[ax][j] >= nl[k], e[ax][j + 1] <= nr[k]) for j in range(shape[ax])]
+                src = lambda j: f[(j, o) if ax == 0 else (o, j)]  # noqa: E731
+                cell = res["freq"][k][o] if ax == 0 else res["freq"][o][k]
+                yield f"cell[{k},{o}]", cx.eq(cell, zsum(z3.If(inside[j], src(j), 0) for j in range(shape[ax])))
+        yield "total_and_missed_conserved", z3.And(cx.eq(res["total"], zsum(f.values())), cx.eq(res["missed"], cx.t(x["m"])))
+        a = obs["after"]
+        yield "original_unchanged", z3.And([z3.BoolVal([len(a["freq"]), len(a["freq"][0])] == list(shape))] + [cx.eq(getcell(a["freq"], idx), f[idx]) for idx in idxs])
